@@ -11,7 +11,7 @@ import torch
 
 from tjv.rt import gen
 from tjv.rt.aggs import make_agg
-from ._autojac import AGG_TOL, mtl_kwargs, mtl_reference, set_pregrads
+from ._autojac import AGG_TOL, mtl_kwargs, mtl_reference, selection_ambiguous, set_pregrads
 
 RULE = ("random trunk/heads programs (gen.build_mtl: 1..3 shared params, dense or sparse trunk producing 1..3 "
         "features of any shape, 1..4 heads with own / overlapping / empty parameter groups, a leaf not requiring "
@@ -28,7 +28,7 @@ EXHAUSTIVE = ""
 AGGS = [
     {"name": "Constant", "kind": "distinct"},
     {"name": "Constant", "kind": "signed", "wseed": 5},
-    {"name": "Krum", "f": 0, "k": 1},
+    {"name": "Krum", "f": 0, "k": 2},
     {"name": "Krum", "f": 1, "k": 2},
     {"name": "GradDrop", "leak": "rand", "wseed": 7},
     {"name": "UPGrad", "pref": "distinct"},
@@ -92,6 +92,8 @@ def _compare(case, p1, p2, tp, sp):
                 "observed": "exception", "expected": "success"}, None
     torch.manual_seed(case["pre_seed"])
     J, upd = mtl_reference(p2, make_agg(case["agg"], t, dtype))
+    if selection_ambiguous(case["agg"], J):  # ties are excluded: the selected rows depend on rounding
+        return None, None
     rtol, atol = AGG_TOL.get(case["agg"]["name"], gen.tol(dtype))
     if dtype == torch.float32:
         rtol, atol = max(rtol, 3e-4), max(atol, 3e-4)
